@@ -143,12 +143,15 @@ class Findings:
     def __init__(self):
         self.items = []
         self.unspecified = 0
+        self.unspec_rules = {}
         self.checked = 0
 
     def add(self, prop, rule, kinds, status, detail=None):
         self.checked += 1
         if status == U:
             self.unspecified += 1
+            k = f"{prop}/{rule.split(chr(47))[0]}"
+            self.unspec_rules[k] = self.unspec_rules.get(k, 0) + 1
         if status == I:
             self.items.append({"prop": prop, "rule": rule, "kinds": sorted(set(kinds)), "detail": detail})
 
